@@ -19,7 +19,7 @@ pub struct Unit {
 
 pub const HOSTILE: [&str; 10] = ["plain", "it's", "$(touch CANARY)", "`touch CANARY`", ";touch CANARY", "a\"b", "é ü", "x'; touch CANARY; echo '", "*.(rs|toml)", "(a|b);touch CANARY"];
 pub const TYPED: [&str; 16] = ["", "-", "--", "'", "\"", "$(touch CANARY)", "`touch CANARY`", ";touch CANARY", "a b", "a\nb", "\\", "*", "é", "--zz;x", "--beta=$(touch CANARY)", "--beta="];
-pub const SHAPES: usize = 16;
+pub const SHAPES: usize = 17;
 
 const RAW_BASH: &str = "echo CALL RAWBASH";
 const RAW_ZSH: &str = "echo CALL RAWZSH";
@@ -86,6 +86,13 @@ pub fn shape(k: usize, text: &str) -> Opts {
             let u = P::CompleteShell(P::Pos { ty: Ty::Str, strict: Strict::Any, metavar: "URL".into(), help: None }.bx(), ShellK::Nothing);
             let f = P::CompleteShell(P::Pos { ty: Ty::Str, strict: Strict::Any, metavar: "PATH".into(), help: None }.bx(), ShellK::File(Some(text.replace(' ', "_"))));
             P::Seq(vec![sw, P::Alt(vec![P::Map(u.bx(), "u".into()), P::Map(f.bx(), "f".into())]).opt()])
+        }
+        // two different placeholders for the same word (a choice between two positionals): both
+        // rows, in every shell
+        16 => {
+            let src = P::Pos { ty: Ty::Str, strict: Strict::Any, metavar: "SRC".into(), help: Some(DocSpec::plain(text)) };
+            let url = P::Pos { ty: Ty::Str, strict: Strict::Any, metavar: "URL".into(), help: Some(DocSpec::plain("remote location")) };
+            P::Seq(vec![sw, P::Alt(vec![P::Map(P::Seq(vec![P::Switch(Names::long("local")), src]).bx(), "l".into()), P::Map(P::Seq(vec![P::Switch(Names::long("remote")), url]).bx(), "r".into())])])
         }
         _ => unreachable!(),
     };
@@ -702,7 +709,7 @@ impl Check for C15 {
         }
     }
     fn rule(&self) -> String {
-        "definitions = 13 shapes (names and dynamic values longer than the 24-column padding of the candidate list; a dynamic completer returning a two-line description; two shell completers of the same kind with different masks alive for one word; switch + argument with echoing completer and group + positional with complete_shell File; group_help + File with mask; positional completer echoing the typed word; Dir; Dir with mask; Raw; Nothing; sub-commands with descriptions; fixed-list completer with descriptions) x 10 hostile strings in every help / group / description / mask slot (quotes, $(..), backticks, ;, double quote, non-ASCII, quote-breaking payload, multi-extension masks `*.(rs|toml)` and `(a|b);touch CANARY`); lines = {nothing, -a, --beta, --beta=v, cmd ..} + typed word from 23 words (empty, -, --, quotes, $(touch CANARY), backticks, ;, space, line break, backslash, glob, non-ASCII, --zz;x, --beta=$(..), prefixes); revisions 1/7/8/9 with and without an application name; (a) bash/zsh text lexes into directives of the shell's allowed shapes with every data word single-quoted (independent POSIX quote lexer), fish/elvish one candidate per line; (b) one-to-one correspondence with the candidates and shell completers computed at revision 0 for the same line; (c) every bash text is sourced in /usr/bin/bash with stubbed _init_completion/_filedir inside a scratch directory: COMPREPLY and the recorded calls equal (b), no stderr, no CANARY file; zsh/fish/elvish are not installed: decided by (a)+(b) only; shapes 13 (titled group holding a positional beside an ordinary switch) and 14 (descriptions beyond 100 bytes in Cyrillic and Japanese); shapes 13-15: a titled group holding a positional beside a switch, descriptions beyond 100 bytes in multi-byte scripts, two completers for one word of which one is Nothing".into()
+        "definitions = 13 shapes (names and dynamic values longer than the 24-column padding of the candidate list; a dynamic completer returning a two-line description; two shell completers of the same kind with different masks alive for one word; switch + argument with echoing completer and group + positional with complete_shell File; group_help + File with mask; positional completer echoing the typed word; Dir; Dir with mask; Raw; Nothing; sub-commands with descriptions; fixed-list completer with descriptions) x 10 hostile strings in every help / group / description / mask slot (quotes, $(..), backticks, ;, double quote, non-ASCII, quote-breaking payload, multi-extension masks `*.(rs|toml)` and `(a|b);touch CANARY`); lines = {nothing, -a, --beta, --beta=v, cmd ..} + typed word from 23 words (empty, -, --, quotes, $(touch CANARY), backticks, ;, space, line break, backslash, glob, non-ASCII, --zz;x, --beta=$(..), prefixes); revisions 1/7/8/9 with and without an application name; (a) bash/zsh text lexes into directives of the shell's allowed shapes with every data word single-quoted (independent POSIX quote lexer), fish/elvish one candidate per line; (b) one-to-one correspondence with the candidates and shell completers computed at revision 0 for the same line; (c) every bash text is sourced in /usr/bin/bash with stubbed _init_completion/_filedir inside a scratch directory: COMPREPLY and the recorded calls equal (b), no stderr, no CANARY file; zsh/fish/elvish are not installed: decided by (a)+(b) only; shapes 13 (titled group holding a positional beside an ordinary switch) and 14 (descriptions beyond 100 bytes in Cyrillic and Japanese); shapes 13-15: a titled group holding a positional beside a switch, descriptions beyond 100 bytes in multi-byte scripts, two completers for one word of which one is Nothing, two different placeholders for one word".into()
     }
     fn bounds(&self, _tier: Tier) -> Value {
         json!({"shapes": 13, "hostile_strings": 10, "lines_per_definition": "4-6 typed parts x 23 typed words", "shells": "bash (lexed + executed), zsh / fish / elvish (lexed)"})
